@@ -595,8 +595,9 @@ pub fn run(tier: Tier) -> i32 {
                 }
                 None
             };
-            let sizes = [(1u64 << 32) + 123_457, (1u64 << 32) - 5];
-            par_for(sizes.len() as u64 * 2, |i| {
+            // (2^35 + 7: the index's size fields need a sixth 7-bit group; xz_compress only - lzma2_compress has no size field)
+            let sizes = [(1u64 << 32) + 123_457, (1u64 << 32) - 5, (1u64 << 35) + 7];
+            par_for(sizes.len() as u64 * 2 - 1, |i| {
                 let n = sizes[i as usize / 2];
                 let xzf = i % 2 == 0;
                 let mut src = Gen { left: n, pat: pat.clone() };
@@ -628,8 +629,14 @@ pub fn run(tier: Tier) -> i32 {
                                 if ix[0] != 0 || ix[1] != 1 {
                                     return Some(format!("index does not start with 00 01: {:02x?}", &ix[..2]));
                                 }
-                                let (unpadded, a) = unmbi(&ix[2..])?;
-                                let (unc, _) = unmbi(&ix[2 + a..])?;
+                                let (unpadded, a) = match unmbi(&ix[2..]) {
+                                    Some(x) => x,
+                                    None => return Some(format!("the index record's first size is not a variable-length integer of <= 9 bytes: {:02x?}", &ix[2..ix.len().min(13)])),
+                                };
+                                let (unc, _) = match unmbi(&ix[2 + a..]) {
+                                    Some(x) => x,
+                                    None => return Some(format!("the index record's second size is not a variable-length integer of <= 9 bytes: {:02x?}", &ix[2 + a..ix.len().min(13 + a)])),
+                                };
                                 let padded = (unpadded + 3) / 4 * 4;
                                 if unc != n {
                                     return Some(format!("index record says {} uncompressed bytes, {} were given", unc, n));
@@ -646,7 +653,7 @@ pub fn run(tier: Tier) -> i32 {
                     ctx.violation_text(&format!("{} of {} generated bytes into a counting sink: {}", if xzf { "xz_compress" } else { "lzma2_compress" }, n, p), json!({"input_bytes": n, "pattern": "65536-byte block (i*2654435761>>21) repeated"}));
                 }
             });
-            ctx.scope_done(name, sizes.len() as u64 * 2, t0, "xz_compress / lzma2_compress of 2^32-5 and 2^32+123457 bytes; index, footer and totals checked");
+            ctx.scope_done(name, sizes.len() as u64 * 2 - 1, t0, "xz_compress / lzma2_compress of 2^32-5 and 2^32+123457 bytes, xz_compress of 2^35+7 bytes; index, footer and totals checked");
         }
     }
     ctx.finish()
